@@ -183,8 +183,15 @@ ObsTok(s) ==
     THEN e.sites[CHOOSE i \in DOMAIN e.sites : e.sites[i].s = s].tok
     ELSE -2
 
+\* the token found at the index the caller knows the wanted entity by (its ID before re-indexing); a site that
+\* designates it was emitted with its old, un-remapped index (the signature of finding F-S13)
+StaleTok(k) ==
+    LET ids == {p \in DOMAIN h : p[1] = k[1] /\ h[p] = k[2]} IN
+    IF ids = {} \/ k[1] \notin Spaces THEN -3
+    ELSE LET id == (CHOOSE p \in ids : TRUE)[2] IN
+         IF id + 1 \in DOMAIN e[k[1]] THEN e[k[1]][id + 1] ELSE -1
 SiteD(s, got) == [s |-> s, sp |-> S.want[s].k[1], sk |-> S.want[s].sk,
-                  want |-> S.want[s].k[2], got |-> got,
+                  want |-> S.want[s].k[2], got |-> got, stale |-> (got = StaleTok(S.want[s].k)),
                   org |-> (IF Known(S, S.want[s].k) THEN S.ent[S.want[s].k].org ELSE "none")]
 
 \* did entity k end up at an index different from the ID the caller knows it by?
